@@ -164,6 +164,36 @@ def check_props(prop, workdir, extra_q=()):
             'assumptions': assumptions}
 
 
+def props_obligations(res, prop, workdir, extra_q=(), dynamic=False):
+    """Compile props/<prop>.v and record one obligation per theorem.
+    dynamic=False: the file depends only on hand-written sources, so a failure is a fault of this
+    machinery (exit 2). dynamic=True: it depends on files regenerated from /repo, so a failure is a
+    broken proof obligation and is reported as a violation (no-failing-input-found unless the
+    correspondence finds an input)."""
+    if os.environ.get('VERIF_DEV_SKIP_PROPS'):     # development aid only; never set by registered commands
+        res.notes['props_skipped'] = True
+        res.oblige('props skipped (development run)', False)
+        return None
+    pr = check_props(prop, workdir, extra_q)
+    res.assumption_lines = pr['assumptions']
+    ok = pr['rc'] == 0
+    if not ok and not dynamic:
+        raise MachineryFault(f'props/{prop}.v does not compile:\n' + pr['out'][-3000:])
+    for t in pr['theorems']:
+        res.oblige('theorem ' + t, ok, pr['out'])
+    bad = [a for a in pr['assumptions'] if not a.startswith('Closed under')]
+    if bad:
+        raise MachineryFault(f'props/{prop}.v: a theorem depends on axioms: {bad[:3]}')
+    if ok and len(pr['assumptions']) < len(pr['theorems']):
+        raise MachineryFault(f'props/{prop}.v: Print Assumptions missing for some theorem')
+    if not ok:
+        m = re.search(r'File "[^"]*", line (\d+)[^\n]*\n(.*)', pr['out'], flags=re.S)
+        res.violation(f'proof obligations in props/{prop}.v no longer check against the regenerated tables',
+                      {'property': prop, 'broken': f'props/{prop}.v', 'coqc_output': pr['out'][-3000:]},
+                      'props-compile', False)
+    return pr
+
+
 # ------------------------------------------------------------------ model driver
 def run_driver(lines, timeout=3600):
     """Evaluate command lines with the extracted model; returns list of output lines."""
@@ -365,6 +395,9 @@ def finish(res, checker_cmd, assumptions=()):
     }
     with open(os.path.join(EVID, f'{prop}.json'), 'w') as fh:
         json.dump(ev, fh, indent=1, default=str)
+    if exit_code == 0 and res.discharged != res.obligations:
+        raise MachineryFault(f'{res.obligations - res.discharged} obligation(s) not discharged although no violation was recorded: '
+                             + str([o['name'] for o in res.notes.get('obligations_list', []) if not o['ok']]))
     if exit_code == 0:
         print(f'OK property={prop} tier={res.tier} obligations={res.discharged}/{res.obligations} '
               f'cases={res.cases} wall={ev["wall_s"]}s')
